@@ -133,8 +133,10 @@ Proof.
   - rewrite xorb_false_l. apply some_true_iff.
   - split; [discriminate|]. unfold subnet_of. rewrite E. simpl. discriminate.
 Qed.
+(* a network of the other IP version lies in no network of this one: IpAddress False, NotIpAddress True (fix F30; before it the
+   pair was incomparable -- None for both -- which made the answer for a list mixing the versions depend on the order) *)
 Theorem ip_other_version (a b : net) : n_ver a <> n_ver b ->
-  op_test OIpAddress (CNet b) (CNet a) = None /\ op_test ONotIpAddress (CNet b) (CNet a) = None.
+  op_test OIpAddress (CNet b) (CNet a) = Some false /\ op_test ONotIpAddress (CNet b) (CNet a) = Some true.
 Proof.
   intros H. cbn. destruct (ipver_eqb (n_ver a) (n_ver b)) eqn:E; [apply ipver_eqb_eq in E; contradiction|]. auto.
 Qed.
